@@ -16,15 +16,40 @@ from _griffe.expressions import (
     ExprAttribute,
     ExprCall,
     ExprDict,
+    ExprName,
 )
 from _griffe.extensions.base import Extension
 from _griffe.logger import logger
 from _griffe.models import Attribute, Class, Decorator, Function, Module, Parameter, Parameters
 
 
+def _canonical_path(expr: Expr) -> str:
+    # Canonical path of an expression, following chains of aliases through the loaded modules:
+    # a name can reach a module through re-exports or expanded wildcard imports
+    # (`from .base import *` where `base` itself imported `dataclass` or `dataclasses`).
+    path = expr.canonical_path
+    with suppress(AttributeError, KeyError, StopIteration):
+        root = next(element for element in expr.iterate(flat=True) if isinstance(element, ExprName))
+        collection = root.parent.modules_collection  # type: ignore[union-attr]
+        seen: set[str] = set()
+        while path not in seen:
+            seen.add(path)
+            parts = path.split(".")
+            obj: Any = collection
+            for index, part in enumerate(parts):
+                obj = obj.members[part]
+                if obj.is_alias:
+                    # Replace the aliased prefix by its target, and start over.
+                    path = ".".join((obj.target_path, *parts[index + 1 :]))
+                    break
+            else:
+                break
+    return path
+
+
 def _dataclass_decorator(decorators: list[Decorator]) -> Expr | None:
     for decorator in decorators:
-        if isinstance(decorator.value, Expr) and decorator.value.canonical_path == "dataclasses.dataclass":
+        if isinstance(decorator.value, Expr) and _canonical_path(decorator.value) == "dataclasses.dataclass":
             return decorator.value
     return None
 
@@ -58,7 +83,7 @@ def _field_arguments(attribute: Attribute) -> dict[str, Any] | None:
         value = attribute.value
         if isinstance(value, ExprAttribute):
             value = value.last
-        if isinstance(value, ExprCall) and value.canonical_path == "dataclasses.field":
+        if isinstance(value, ExprCall) and _canonical_path(value) == "dataclasses.field":
             return _expr_args(value)
     return None
 
@@ -107,7 +132,7 @@ def _dataclass_parameters(class_: Class) -> list[Parameter]:
                 continue
 
             # Start of keyword-only parameters.
-            if isinstance(member.annotation, Expr) and member.annotation.canonical_path == "dataclasses.KW_ONLY":
+            if isinstance(member.annotation, Expr) and _canonical_path(member.annotation) == "dataclasses.KW_ONLY":
                 kw_only = True
                 continue
 
@@ -246,7 +271,7 @@ def _del_members_annotated_as_initvar(class_: Class) -> None:
     # Definitions annotated as InitVar are not class members.
     attributes = [member for member in class_.members.values() if isinstance(member, Attribute)]
     for attribute in attributes:
-        if isinstance(attribute.annotation, Expr) and attribute.annotation.canonical_path == "dataclasses.InitVar":
+        if isinstance(attribute.annotation, Expr) and _canonical_path(attribute.annotation) == "dataclasses.InitVar":
             class_.del_member(attribute.name)
 
 
